@@ -73,11 +73,23 @@ def handleNames (j : Json) : R Json := do
     .ok (obj [("model", obj [("reported", ofList ofChars rep), ("present", ofList ofChars present),
                              ("holds", Json.arr holds.toArray)])])
 
+/-- `{"op":"autonames", "combos":[[bucket, ext], …], "saves":n, "existing":[numbers]}` → the files present after
+`n` automatic saves of every combination (deprecated `exposure_mode`: one save per readout) -/
+def handleAutoNames (j : Json) : R Json := do
+  let combos ← asList decCombo (← fld j "combos")
+  let n ← asNat (← fld j "saves")
+  let existing ← asList asNat (fldD j "existing" (Json.arr #[]))
+  let nums := autoSaves existing n
+  let names := combos.flatMap (fun be => nums.map (fun k => fileName .sequential be.1 be.2 (k - 1)))
+  .ok (obj [("model", obj [("numbers", ofList ofNat nums), ("present", ofList ofChars names),
+                           ("text_sorted_next", ofNat (nextNumberTextSorted ((List.range n).map (· + 1))))])])
+
 def handle (j : Json) : R Json := do
   match (← asStr (← fld j "op")) with
   | "dirs" => handleDirs j
   | "createDir" => handleCreate j
   | "names" => handleNames j
+  | "autonames" => handleAutoNames j
   | o => .error s!"unknown op {o}"
 
 end PyxelModel.C19
